@@ -51,6 +51,24 @@ impl Hasher {
     Ok((mode, self.pieces))
   }
 
+  /// Verification hook: the file loop of `hash_contents` followed by `finish`, over
+  /// caller-supplied readers instead of opened paths.
+  #[cfg(imdl_verif)]
+  pub(crate) fn verif_hash_readers(
+    mut self,
+    readers: &mut [&mut dyn BufRead],
+  ) -> io::Result<(Vec<(Option<Md5Digest>, Bytes)>, PieceList)> {
+    let mut files = Vec::new();
+
+    for reader in readers {
+      files.push(self.hash_read_io(*reader)?);
+    }
+
+    self.finish();
+
+    Ok((files, self.pieces))
+  }
+
   fn finish(&mut self) {
     if self.piece_bytes_hashed > 0 {
       self.pieces.push(self.sha1.digest().into());
